@@ -14,6 +14,19 @@ CLAIMED = {
               "names/buffers than the bounds, non-ASCII names for the Jenkins pair. Known finding KF-C04-key0 (key 0 treated as 'not "
               "encrypted') is excluded by an explicit assumption and re-witnessed on every run."),
     ),
+    "C18": dict(
+        text=("Bounded model checking of the real WDT/WDL code: world_to_tile(tile_to_world(t)) == t for all 4096 tiles in one query "
+              "(IEEE-754 single); every WDT chunk record (MPHD both flavours, MVER, MODF) and WDL record (Vec3d, BoundingBox, "
+              "ModelPlacement, M2Placement, M2VisibilityInfo, HolesData) satisfies write(read(b)) == b for ALL byte contents, consumes "
+              "and produces exactly the documented size, and size() equals the bytes written; the MWMO emission rule is stable under "
+              "write->read->write for every (version, flags, chunk presence). Thorough adds the 64x64 MAIN/MAID grids (entry at a "
+              "symbolic position survives, nothing appears elsewhere, size() == bytes written for 1/2/8 MAID sections), MWMO names, "
+              "the 545-value MARE tile and WDL chunk framing."),
+        design_ref="DESIGN.md section 4, C18",
+        note=("Trusted: Kani/CBMC float model for +,-,*,/ and casts (bit-precise; counterexample replayed natively). Outside: the WDL file "
+              "writer/parser as a whole incl. the MAOF offset table (walks 4096 slots through HashMap lookups - out of reach), whole-file "
+              "WDT write->read, version conversion of whole maps."),
+    ),
 }
 
 NOT_APPLICABLE = {
@@ -23,7 +36,7 @@ NOT_APPLICABLE = {
     "C12": "quantifies over kill points and failing system calls of an OS process; the deciding code is tempfile + rename in the kernel/FFI (DESIGN.md section 5)",
     "C20": "property of whole process runs (argument parsing, error propagation to main, stdout); no unit a bounded model checker can drive (DESIGN.md section 5)",
 }
-for _p in ["C01", "C02", "C03", "C05", "C06", "C08", "C10", "C13", "C14", "C15", "C16", "C17", "C18", "C19"]:
+for _p in ["C01", "C02", "C03", "C05", "C06", "C08", "C10", "C13", "C14", "C15", "C16", "C17", "C19"]:
     NOT_APPLICABLE.setdefault(_p, WIP)
 
 NOTES = ("Exit codes of bin/check: 0 held, 1 violation (replayed), 2 inconclusive (build error, time-out, OOM, vacuous harness, "
